@@ -120,10 +120,12 @@ Section Spec.
 
   (* ------------------------------------------------------------------ dict keys as Python ints
      The definitions above take dict keys as natural numbers.  The code accepts any int: the double-constraint
-     scan compares the RAW keys (`mode in modes_constrained`), the registration indexes a Python list
-     (`constraints[modes[i]] = name`), which wraps negative keys around.  The z* definitions model exactly that;
-     they are the definitions the correspondence executes.  For non-negative keys they coincide with the
-     definitions above (Proofs/ConstraintsProofsKeys.v). *)
+     scan normalises a key with `mode_index` (negative keys count from the last mode; ValueError outside [-n, n)),
+     the registration indexes a Python list (`constraints[modes[i]] = name`), which wraps negative keys around in
+     the same way.  The z* definitions model exactly that; they are the definitions the correspondence executes.
+     For keys in [-n, n) they coincide with the definitions above applied to the normalised keys
+     (Proofs/ConstraintsProofsKeys.v).  (Before fix c019b1a the scan compared the raw keys: 2 and -1 on order 3
+     were taken for different modes.) *)
   Inductive zspec :=
   | ZNone
   | ZScalar (p : P)
@@ -156,24 +158,29 @@ Section Spec.
       end
     else [].
 
-  Fixpoint zmemb (a : Z) (l : list Z) : bool :=
-    match l with [] => false | x :: r => Z.eqb x a || zmemb a r end.
-
-  Fixpoint zadd_all (seen : list Z) (ks : list Z) : res (list Z) :=
+  (* the scan: `mode = mode_index(mode)` (ValueError outside [-n, n)), `if mode in modes_constrained: raise`, add;
+     the set holds mode numbers *)
+  Fixpoint zadd_keys (n : nat) (seen : list nat) (ks : list Z) : res (list nat) :=
     match ks with
     | [] => Ok seen
-    | a :: r => if zmemb a seen then Err else zadd_all (a :: seen) r
+    | key :: r =>
+        match resolve n key with
+        | None => Err
+        | Some m => if memb m seen then Err else zadd_keys n (m :: seen) r
+        end
     end.
 
-  Definition zscan_one (n : nat) (seen : list Z) (s : zspec) : res (list Z) :=
+  Definition zscan_one (n : nat) (seen : list nat) (s : zspec) : res (list nat) :=
     if zspec_truthy s then
       match s with
-      | ZScalar _ => match seen with [] => zadd_all [] (map Z.of_nat (seq 0 n)) | _ :: _ => Err end
-      | _ => zadd_all seen (map fst (zassigns n s))
+      | ZNone => Ok seen
+      | ZScalar _ => match seen with [] => add_all [] (seq 0 n) | _ :: _ => Err end   (* len(modes_constrained) > 0 -> raise *)
+      | ZList l => add_all seen (map fst (list_assigns 0 l))                           (* list positions, as they are *)
+      | ZDict d => zadd_keys n seen (map fst d)
       end
     else Ok seen.
 
-  Fixpoint zscan (n : nat) (seen : list Z) (sp : list (kind * zspec)) : res (list Z) :=
+  Fixpoint zscan (n : nat) (seen : list nat) (sp : list (kind * zspec)) : res (list nat) :=
     match sp with
     | [] => Ok seen
     | (_, s) :: r => rbind (zscan_one n seen s) (fun seen' => zscan n seen' r)
